@@ -621,3 +621,60 @@ class ArrayTwin:
                         method='second interpretation in array mode (arrays as mutable cells) + GF(p^2) PIT')
         if n < floor:
             raise AnalysisError(f'array twin for {self.rule}: only {n} functions had array-valued calls')
+
+
+# ----------------------------------------------------------------------------------------------------------------- first-order rounding count
+def rounding_count(node, exact_atoms=()):
+    """First-order forward error bound of an extracted expression evaluated in binary floating point: returns K such that computed = exact * (1 + theta), |theta| <= K u + O(u^2)
+    (u = 2^-53), or None when the expression is not of a form whose conditioning is bounded for all positive inputs (a difference or a sum of terms of unknown sign: cancellation;
+    exp / log / trigonometric functions of the inputs).  Inputs are exact; constants that are not small dyadic rationals (pi, G, decimal literals) carry one rounding.
+    Rules: x*y, x/y: K_x + K_y + 1;  x^n: |n| K_x + 1;  sqrt: K/2 + 1;  cbrt: K/3 + 1;  x^p (constant p): |p| K_x + 2;  sum of terms of one sign: max K + 1."""
+    from ..core.regions import sign_of, POS, NEG
+    from fractions import Fraction as Fr
+    memo = {}
+
+    def exact_const(v):
+        v = Fr(v)
+        d = v.denominator
+        return (d & (d - 1)) == 0 and abs(v.numerator) < 2 ** 53 and d < 2 ** 60
+
+    def k(n):
+        if n.uid in memo: return memo[n.uid]
+        op = n.op
+        if op == 'const':
+            r = Fr(0) if exact_const(n.val) else Fr(1)
+        elif op == 'atom':
+            r = Fr(0) if (n.val[0] in exact_atoms or not (n.val[0] in ('pi',) or n.val[0].startswith('const_'))) else Fr(1)
+        elif op in ('mul', 'div'):
+            a, b = k(n.args[0]), k(n.args[1])
+            r = None if a is None or b is None else a + b + 1
+            if r is not None and any(t.op == 'const' and exact_const(t.val) and abs(Fr(t.val)).numerator in (1,) and (abs(Fr(t.val)).denominator & (abs(Fr(t.val)).denominator - 1)) == 0 for t in n.args):
+                r = a + b          # scaling by a power of two is exact
+        elif op == 'powi':
+            a = k(n.args[0])
+            r = None if a is None else abs(n.val) * a + (0 if abs(n.val) == 1 else 1)
+        elif op == 'add':
+            a, b = k(n.args[0]), k(n.args[1])
+            sa, sb = sign_of(n.args[0]), sign_of(n.args[1])
+            if a is None or b is None or not ((sa == POS and sb == POS) or (sa == NEG and sb == NEG)):
+                r = None
+            else:
+                r = max(a, b) + 1
+        elif op == 'fn' and n.val in ('sqrt', 'cbrt') and len(n.args) == 1:
+            a = k(n.args[0])
+            r = None if a is None else a / (2 if n.val == 'sqrt' else 3) + 1
+        elif op == 'fn' and n.val == 'exp' and len(n.args) == 1 and n.args[0].op == 'mul':
+            # x^p written as exp(p log x) with a constant p: |p| K_x + 2
+            r = None
+            for i_ in (0, 1):
+                c_, l_ = n.args[0].args[i_], n.args[0].args[1 - i_]
+                if c_.op == 'const' and l_.op == 'fn' and l_.val == 'log':
+                    a = k(l_.args[0])
+                    r = None if a is None else abs(Fr(c_.val)) * a + 2
+        elif op == 'fn' and n.val in ('abs', 'real') and len(n.args) == 1:
+            r = k(n.args[0])
+        else:
+            r = None
+        memo[n.uid] = r
+        return r
+    return k(node)
